@@ -158,6 +158,13 @@ theorem hexDecode16_enc : ∀ (bs : Bytes) (n : Nat) (acc : Bytes), (∀ b ∈ b
     have : b / 16 % 16 * 16 + b % 16 = b := by omega
     simp [this]
 
+theorem hexEnc_length (bs : Bytes) : (hexEnc bs).length = 2 * bs.length := by
+  induction bs with
+  | nil => rfl
+  | cons b bs ih =>
+    simp only [hexEnc, List.flatMap_cons, List.length_append, List.length_cons, List.length_nil] at ih ⊢
+    omega
+
 theorem hexEnc_clean (bs : Bytes) : Clean (hexEnc bs) := by
   intro c hc
   simp only [hexEnc, List.mem_flatMap] at hc
